@@ -172,7 +172,20 @@ def r3(run):
             if a[0] == "call" and a[1].local:
                 idfn = a[1].fn
     if idfn is None:
-        run.missing("%s|id-extractor" % C.HEAD, "head must map an index key to a frame id through a shared extractor")
+        # the extractor may have been spliced into head (a private helper with a new name): the slicing is then in head's own bodies
+        ok = False
+        d = ""
+        for hb2 in facts.bodies_under(C.HEAD):
+            for c in q.live_calls(hb2, "core::ops::index::Index::index"):
+                rng = strip(c.arg(1))
+                d = fmt(rng)
+                if rng[0] == "agg" and (rng[1].get("variant") == "RangeFrom" or rng[1].get("adt", "").endswith("RangeFrom")):
+                    x = strip(rng[2][0])
+                    while x[0] == "field":
+                        x = x[1]
+                    if x[0] == "bin" and x[1] in ("Sub", "SubWithOverflow") and q.const_int(x[3]) == 16 and any(cc.fn == "core::slice::<impl [T]>::len" for cc in q.calls_in(x[2])):
+                        ok = True
+        run.ob("%s|id-extractor" % C.HEAD, ok, "<Store::head>", "head takes the frame id from the LAST 16 bytes of the index key: key[%s]" % d, reason="key-layout")
     else:
         eb = C.body_or_fail(run, idfn)
         idx = q.live_calls(eb, "core::ops::index::Index::index")
@@ -197,6 +210,10 @@ def r3(run):
     if ci and ci[0][0] == "fn":
         cb = C.body_or_fail(run, ci[0][1])
         csegs = q.returned_vec_segments(facts, cb)
+        # a constructor that takes the two ids instead of the frame: judge it with the arguments of its call in insert_frame
+        kx = q.peel(ci[1].arg(2))
+        if kx[0] == "call" and kx[1].fn == ci[0][1]:
+            csegs = [(k2, q.subst_args(e2, kx[2]), site2) for (k2, e2, site2) in csegs]
         desc = " ++ ".join(seg_desc(s) for s in csegs)
         ok = len(csegs) == 2 and all(s[0] == "bytes" for s in csegs) and q.has_field(csegs[0][1], "context_id") and q.has_field(csegs[1][1], "id") \
             and not q.has_field(csegs[1][1], "context_id")
